@@ -26,21 +26,22 @@ type Run struct {
 	Seed  int64
 	start time.Time
 
-	mu           sync.Mutex
-	evaluations  int
-	distinct     map[uint64]struct{}
-	rule         string
-	samples      []any
-	observed     map[string]any
-	counters     map[string]int
-	inconclusive map[string]int
-	assumptions  []string
-	exhaustive   *bool
-	violations   []Violation
-	known        map[string]int
-	kf           *KnownFindings
-	maxSamples   int
-	NoEvidence   bool
+	mu            sync.Mutex
+	evaluations   int
+	distinct      map[uint64]struct{}
+	distinctExtra int
+	rule          string
+	samples       []any
+	observed      map[string]any
+	counters      map[string]int
+	inconclusive  map[string]int
+	assumptions   []string
+	exhaustive    *bool
+	violations    []Violation
+	known         map[string]int
+	kf            *KnownFindings
+	maxSamples    int
+	NoEvidence    bool
 }
 
 type Violation struct {
@@ -73,9 +74,9 @@ func (r *Run) N(quick, thorough int) int {
 	return quick
 }
 
-func (r *Run) SetRule(s string)        { r.rule = s }
-func (r *Run) Assume(s string)         { r.mu.Lock(); r.assumptions = append(r.assumptions, s); r.mu.Unlock() }
-func (r *Run) SetExhaustive(b bool)    { r.exhaustive = &b }
+func (r *Run) SetRule(s string)            { r.rule = s }
+func (r *Run) Assume(s string)             { r.mu.Lock(); r.assumptions = append(r.assumptions, s); r.mu.Unlock() }
+func (r *Run) SetExhaustive(b bool)        { r.exhaustive = &b }
 func (r *Run) SetObserved(k string, v any) { r.mu.Lock(); r.observed[k] = v; r.mu.Unlock() }
 
 // Eval counts one executed case.
@@ -89,6 +90,10 @@ func (r *Run) Distinct(key string) {
 	r.distinct[h] = struct{}{}
 	r.mu.Unlock()
 }
+
+// DistinctN adds n cases that are distinct and non-trivial by construction
+// (used where hashing every case would cost more than running it).
+func (r *Run) DistinctN(n int) { r.mu.Lock(); r.distinctExtra += n; r.mu.Unlock() }
 
 func (r *Run) Count(k string, n int) { r.mu.Lock(); r.counters[k] += n; r.mu.Unlock() }
 func (r *Run) Counter(k string) int  { r.mu.Lock(); defer r.mu.Unlock(); return r.counters[k] }
@@ -143,7 +148,7 @@ func (r *Run) Finish() int {
 	root := Root()
 	cov := map[string]any{
 		"evaluations":         r.evaluations,
-		"distinct_nontrivial": len(r.distinct),
+		"distinct_nontrivial": len(r.distinct) + r.distinctExtra,
 		"rule":                r.rule,
 		"samples":             r.samples,
 	}
@@ -210,12 +215,12 @@ func (r *Run) Finish() int {
 		}
 		return 1
 	}
-	if len(r.distinct) < 2 || r.evaluations < 1 {
-		fmt.Printf("INCONCLUSIVE property=%s: the run observed nothing (evaluations=%d distinct=%d)\n", r.ID, r.evaluations, len(r.distinct))
+	if len(r.distinct)+r.distinctExtra < 2 || r.evaluations < 1 {
+		fmt.Printf("INCONCLUSIVE property=%s: the run observed nothing (evaluations=%d distinct=%d)\n", r.ID, r.evaluations, len(r.distinct)+r.distinctExtra)
 		return 2
 	}
 	fmt.Printf("OK property=%s tier=%s seed=%d evaluations=%d distinct_nontrivial=%d wall=%.1fs\n",
-		r.ID, r.Tier, r.Seed, r.evaluations, len(r.distinct), ev.WallS)
+		r.ID, r.Tier, r.Seed, r.evaluations, len(r.distinct)+r.distinctExtra, ev.WallS)
 	return 0
 }
 
